@@ -142,7 +142,7 @@ Qed.
 
 Lemma entry_at_nf bs hdr off :
   entry_at bs hdr off =
-  if (off <? hdr + 4) || (len bs <? off + 16) then None else
+  if (off <? hdr + 4) || negb (off mod 8 =? 0) || (len bs <? off + 16) then None else
   if (get32 bs (off + 8) mod 16777216 =? 0) || (len bs <? off + 16 + get32 bs (off + 8) mod 16777216)
   then None else
   Some (slice bs (off + 16) (get32 bs (off + 8) mod 16777216), get32 bs (off + 12), get64 bs off).
@@ -163,6 +163,7 @@ Proof.
   rewrite first_off_val in H2.
   rewrite entry_at_nf. fold nl.
   destruct (N.ltb_spec off (hdr + 4)) as [X|_]; [lia|]. cbn [orb].
+  destruct (N.eqb_spec (off mod 8) 0) as [_|X]; [|exfalso; apply X; divlia]. cbn [negb orb].
   destruct (N.ltb_spec (len bs) (off + 16)) as [X|_]; [lia|].
   destruct (N.eqb_spec nl 0) as [X|_]; [lia|]. cbn [orb].
   destruct (N.ltb_spec (len bs) (off + 16 + nl)) as [X|_]; [lia|]. reflexivity.
